@@ -279,7 +279,7 @@ def run(ctx):
     r5.check(any(x.k == 'asg' and x.args[0].path() == 'G:flagreadasap' and x.args[1].const == 1 for x in sh.all_x()), 'sighup-sets-flagreadasap', sh.unit + ':sighup', '')
     mainf = prog.fn('main', 'qmail-send.c')
     rr = mainf.calls('reread')
-    r5.check(bool(rr) and any(c.path() == 'G:flagreadasap' and t is True for c, t in mainf.guards(rr[0]) or []), 'loop-calls-reread-when-flagged', mainf.unit + ':main', '')
+    r5.check(bool(rr) and any(c.path() == 'G:flagreadasap' and t is True for c, t in mainf.guards(rr[0], fresh=False) or []), 'loop-calls-reread-when-flagged', mainf.unit + ':main', '')
     rrf = prog.fn('reread', 'qmail-send.c')
     r5.check(bool(rrf.calls('regetcontrols')), 'reread-calls-regetcontrols', rrf.unit + ':reread', '')
     r5.expect_min(10)
